@@ -18,7 +18,7 @@ fn harness_error(msg: String) -> ! {
 
 // ------------------------------------------------------------------------------------------ oracles
 
-fn check_sha1(msg: &[u8]) -> Option<Fail> {
+pub fn check_sha1(msg: &[u8]) -> Option<Fail> {
     let want = sha1(msg);
     match catch(|| msg.hash()) {
         Err(p) => Some(fail!("sha1-panic", "SHA-1 of a {}-byte message panicked: {}", msg.len(), p)),
@@ -33,7 +33,7 @@ fn check_sha1(msg: &[u8]) -> Option<Fail> {
     }
 }
 
-fn check_b64_encode(data: &[u8]) -> Option<Fail> {
+pub fn check_b64_encode(data: &[u8]) -> Option<Fail> {
     let want = b64_encode(data);
     let got = match catch(|| data.encode()) {
         Ok(g) => g,
@@ -56,7 +56,7 @@ fn check_b64_encode(data: &[u8]) -> Option<Fail> {
     }
 }
 
-fn check_b64_decode(s: &str) -> Option<Fail> {
+pub fn check_b64_decode(s: &str) -> Option<Fail> {
     let want = b64_decode_strict(s);
     let got = match catch(|| s.decode()) {
         Ok(g) => g,
@@ -96,7 +96,7 @@ fn check_b64_decode(s: &str) -> Option<Fail> {
     }
 }
 
-fn check_pct_encode(data: &[u8]) -> Option<Fail> {
+pub fn check_pct_encode(data: &[u8]) -> Option<Fail> {
     let want = pct_encode(data);
     let got = match catch(|| data.percent_encode()) {
         Ok(g) => g,
@@ -117,7 +117,7 @@ fn check_pct_encode(data: &[u8]) -> Option<Fail> {
     }
 }
 
-fn check_pct_decode(s: &str) -> Option<Fail> {
+pub fn check_pct_decode(s: &str) -> Option<Fail> {
     let want = pct_decode(s);
     let got = match catch(|| s.percent_decode()) {
         Ok(g) => g,
@@ -137,7 +137,7 @@ fn check_pct_decode(s: &str) -> Option<Fail> {
     }
 }
 
-fn check_date(ts: i64) -> Option<Fail> {
+pub fn check_date(ts: i64) -> Option<Fail> {
     let c = civil(ts);
     let want = imf_fixdate(ts);
     let (got, fields) = match catch(|| {
